@@ -70,9 +70,13 @@ def graphs(draw, max_nodes=10, with_assets=True, max_ports=3, apply_only=False):
             if cands:
                 twin = cands[draw(st.integers(0, len(cands) - 1))]
         if twin is not None:
+            # same name and hyper-parameters; half of the twins differ in an *opaque* parameter (equal textual
+            # representation of the builder, different content - like two different lambdas)
             groups.append({'kind': kind, 'nin': nin, 'nout': nout, 'hp': dict(twin['hp']), 'name': twin['name']})
+            groups[-1]['twin_of'] = groups.index(twin)
+            groups[-1]['opaque'] = gid if draw(st.booleans()) else twin['opaque']
         else:
-            groups.append({'kind': kind, 'nin': nin, 'nout': nout, 'hp': draw(hp_st), 'name': f'g{gid}'})
+            groups.append({'kind': kind, 'nin': nin, 'nout': nout, 'hp': draw(hp_st), 'name': f'g{gid}', 'opaque': gid})
         return gid
 
     # head
@@ -127,6 +131,9 @@ def graphs(draw, max_nodes=10, with_assets=True, max_ports=3, apply_only=False):
             g = new_group(draw(st.sampled_from(['fn', 'st'])), draw(st.integers(1, max_ports)), draw(st.integers(1, max_ports)))
         ports = pubs()
         ins = [ports[draw(st.integers(0, len(ports) - 1))] for _ in range(groups[g]['nin'])]
+        sibling = [n for n in nodes if n['mode'] == 'apply' and n['g'] == groups[g].get('twin_of', -1) and n['in']]
+        if sibling and draw(st.booleans()):  # twin builders fed by the very same publishers
+            ins = [list(p) for p in sibling[0]['in']]
         nodes.append({'g': g, 'mode': 'apply', 'in': ins})
     # tail: a fresh single-output (or output-less) node that nobody subscribes to
     ports = pubs()
@@ -174,6 +181,13 @@ def graphs(draw, max_nodes=10, with_assets=True, max_ports=3, apply_only=False):
 # ---- direct semantics -------------------------------------------------------------------------------------------------------
 
 
+def group_hp(group):
+    hp = dict(group['hp'])
+    if group.get('opaque') is not None:
+        hp['opaque'] = actors.Opaque(group['opaque'])
+    return hp
+
+
 class Expected:
     """Direct evaluation of the spec DAG in the term algebra."""
 
@@ -188,7 +202,7 @@ class Expected:
         self._state = {}
 
     def hp(self, g):
-        return actors.hp_term(self.groups[g]['hp'])
+        return actors.hp_term(group_hp(self.groups[g]))
 
     def prev(self, g):
         """State loaded from the previous generation for group g (bot if none)."""
@@ -291,7 +305,7 @@ class Built:
         self.builders = []
         for g in groups:
             cls = actors.St if g['kind'] == 'st' else actors.Fn
-            self.builders.append(cls.builder(g['name'], g['nin'], g['nout'], **g['hp']))
+            self.builders.append(cls.builder(g['name'], g['nin'], g['nout'], **group_hp(g)))
         self.workers = []
         first = {}
         for n in spec['nodes']:
@@ -363,6 +377,8 @@ def classes(spec):
     names = [g['name'] for g in groups]
     if len(set(names)) < len(names):
         out.append('repeated-builder')
+    if any(g.get('twin_of') is not None and g.get('opaque') != groups[g['twin_of']].get('opaque') for g in groups):
+        out.append('same-repr-different-builder')
     pubs = {}
     for n in nodes:
         for p in (n['in'] if n['mode'] == 'apply' else [n['train'], n['label']]):
